@@ -14,6 +14,7 @@ import (
 	"github.com/titpetric/vuego"
 
 	"verif/engine/core"
+	"verif/engine/htmlcmp"
 )
 
 // C12: output is all-or-nothing and writer failures are reported.
@@ -37,6 +38,7 @@ type failWriter struct {
 	limit  int
 	short  bool
 	once   bool // transient fault: only the Write that crosses the limit fails, later ones succeed
+	silent bool // the failing Write (and every later one) accepts fewer bytes than given and reports no error
 	got    bytes.Buffer
 	failed bool
 	calls  int
@@ -44,6 +46,9 @@ type failWriter struct {
 
 func (f *failWriter) Write(p []byte) (int, error) {
 	f.calls++
+	if f.failed && f.silent {
+		return 0, nil
+	}
 	if f.failed && !f.once {
 		return 0, errInjected
 	}
@@ -53,6 +58,10 @@ func (f *failWriter) Write(p []byte) (int, error) {
 		return len(p), nil
 	}
 	f.failed = true
+	if f.silent {
+		f.got.Write(p[:max(room, 0)])
+		return max(room, 0), nil
+	}
 	if f.short && room > 0 {
 		f.got.Write(p[:room])
 		return room, errInjected
@@ -281,6 +290,12 @@ func (c *c12Case) runProc(ctx *core.Ctx) {
 	}
 }
 
+// failStringWriter is a failWriter that also takes strings (like *os.File, *bufio.Writer and
+// http response recorders do): io.WriteString goes to WriteString, which fails the same way.
+type failStringWriter struct{ *failWriter }
+
+func (f failStringWriter) WriteString(s string) (int, error) { return f.failWriter.Write([]byte(s)) }
+
 func stripFM(src string) string {
 	if strings.HasPrefix(src, "---") {
 		if i := strings.Index(src[3:], "\n---"); i >= 0 {
@@ -314,7 +329,54 @@ func c12CallOn(ctx context.Context, t vuego.Template, p *Program, entry string, 
 	panic(entry)
 }
 
+// runRenderer: the exported serialiser (vuego.NewRenderer().Render) writes straight to the caller's
+// writer; a failure of that writer at any offset, in any style, must come back as an error.
+func (c *c12Case) runRenderer(ctx *core.Ctx) {
+	p := programByName(c.Prog)
+	if p.Fails {
+		return
+	}
+	var page bytes.Buffer
+	if err := c12Call(bg, p, "render", &page); err != nil {
+		return
+	}
+	ctx.NonTrivial()
+	nodes := htmlcmp.Parse(page.String())
+	var ref bytes.Buffer
+	ctx.Eval(1)
+	if err := vuego.NewRenderer().Render(bg, &ref, nodes); err != nil {
+		ctx.Violation("renderer-error", "renderer", c.Prog, fmt.Sprintf("Renderer.Render on the nodes of %s: %v", c.Prog, err))
+		return
+	}
+	n := ref.Len()
+	for k := 0; k < n; k++ {
+		for style := 0; style < 4; style++ {
+			fw := &failWriter{limit: k, short: style == 1, once: style == 2, silent: style == 3}
+			ctx.Eval(1)
+			err := vuego.NewRenderer().Render(bg, fw, nodes)
+			if !fw.failed {
+				ctx.Violation("fault-not-reached", "renderer", c.Prog, fmt.Sprintf("offset %d/%d: the writer never had to fail", k, n))
+				continue
+			}
+			if !fw.once && !bytes.HasPrefix(ref.Bytes(), fw.got.Bytes()) {
+				ctx.Violation("foreign-bytes-before-failure", "renderer", c.Prog, fmt.Sprintf("offset %d: the failing writer received %q, not a prefix of %q", k, clip(fw.got.String(), 200), clip(ref.String(), 200)))
+				return
+			}
+			if err == nil {
+				ctx.Violation("writer-failure-swallowed", "renderer", []string{"refuse", "short-write", "transient", "short-write-without-error"}[style], fmt.Sprintf("Renderer.Render on the nodes of %s: writer failed at offset %d of %d but Render returned nil", c.Prog, k, n))
+				return
+			}
+		}
+	}
+	ctx.Count("fault-offsets", n)
+	ctx.Outcome(fmt.Sprint(n))
+}
+
 func (c *c12Case) Run(ctx *core.Ctx) {
+	if c.Part == "renderer" {
+		c.runRenderer(ctx)
+		return
+	}
 	if c.Part == "processor" {
 		c.runProc(ctx)
 		return
@@ -378,11 +440,15 @@ func (c *c12Case) Run(ctx *core.Ctx) {
 			continue
 		}
 		offsets++
-		for style := 0; style < 3; style++ {
+		for style := 0; style < 4; style++ {
 			short := style == 1
-			fw := &failWriter{limit: k, short: short, once: style == 2}
+			fw := &failWriter{limit: k, short: short, once: style == 2, silent: style == 3}
 			ctx.Eval(2)
-			e := c12CallOn(bg, shared, p, c.Entry, fw)
+			var dest io.Writer = fw
+			if k%2 == 1 {
+				dest = failStringWriter{fw} // every other offset through a writer that also takes strings
+			}
+			e := c12CallOn(bg, shared, p, c.Entry, dest)
 			// history: a healthy call right after the failed one gets exactly the reference bytes
 			after := &failWriter{limit: 1 << 30}
 			if e2 := c12CallOn(bg, shared, p, c.Entry, after); e2 != nil || after.got.String() != ref.String() {
@@ -404,6 +470,9 @@ func (c *c12Case) Run(ctx *core.Ctx) {
 				}
 				if fw.once {
 					style = "transient"
+				}
+				if fw.silent {
+					style = "short-write-without-error"
 				}
 				ctx.Violation("writer-failure-swallowed", where, style, fmt.Sprintf("program %s: writer failed at offset %d of %d (%s) but the render returned nil", c.Prog, k, n, style))
 				return
@@ -427,10 +496,10 @@ func init() {
 	core.Register(&core.Check{
 		ID:    "C12",
 		Level: "fault_enumeration",
-		Rule: "every catalogue program (25 succeeding, 6 failing early/late/in include/in layout) x entry point {Load+Render, RenderFile, RenderString, RenderByte, RenderReader} x fault {none, cancelled context, writer failing at EVERY byte offset 0..len(output)-1 in three styles: refusing the write and every later one, short write + error, refusing that one write only (a transient fault)}; plus, for the succeeding programs, a registered node processor that changes nothing and fails at EVERY node position of the DOM it is shown (post-processing and pre-processing), which must give an error and 0 bytes; plus a context that is cancelled while the render runs - when the writer receives its k-th byte, for every k, and when the j-th file is opened, for every j - after which the call must still be all or nothing. " +
+		Rule: "every catalogue program (25 succeeding, 6 failing early/late/in include/in layout) x entry point {Load+Render, RenderFile, RenderString, RenderByte, RenderReader} x fault {none, cancelled context, writer failing at EVERY byte offset 0..len(output)-1 in four styles: refusing the write and every later one, short write + error, refusing that one write only (a transient fault), accepting fewer bytes than given without reporting an error; every other offset through a writer that also implements io.StringWriter}; plus, for the succeeding programs, a registered node processor that changes nothing and fails at EVERY node position of the DOM it is shown (post-processing and pre-processing), which must give an error and 0 bytes; plus a context that is cancelled while the render runs - when the writer receives its k-th byte, for every k, and when the j-th file is opened, for every j - after which the call must still be all or nothing; plus the exported serialiser (NewRenderer().Render) on the nodes of every succeeding program with the writer failing at every offset in the same four styles. " +
 			"oracle: healthy writer: error => 0 bytes received, nil => exactly the reference bytes; failing writer: non-nil error, the bytes it accepted are a prefix of the reference, and the next healthy render on the same long-lived engine returns exactly the reference bytes; cancelled context: error and 0 bytes. non-trivial = all; distinct = (program, entry point)",
 		Bounds:      map[string]string{"quick": "all offsets of all programs; for the two programs with more than 4096 bytes of output the first and last 512 offsets and every 97th in between", "thorough": "all offsets of all programs"},
-		Assumptions: []string{"writers that return n < len(p) with a nil error are out of scope"},
+		Assumptions: []string{"a writer that accepts fewer bytes than given without an error breaks io.Writer's contract; the render must still report it (io.ErrShortWrite)"},
 		Decode:      core.DecodeAs[c12Case](),
 		Enumerate: func(tier string, emit func(core.Case)) {
 			for _, p := range Catalog {
@@ -443,6 +512,7 @@ func init() {
 					emit(&c12Case{Part: "processor", Prog: p.Name, Entry: e})
 					emit(&c12Case{Part: "cancel", Prog: p.Name, Entry: e})
 				}
+				emit(&c12Case{Part: "renderer", Prog: p.Name})
 			}
 		},
 	})
